@@ -42,6 +42,15 @@ def gen(seed, idx, tier):
         f["tmin"] = 0.0
         f["tmax"] = scn["options"]["solve_time"]
         scn["meta"]["slow_rel"] = rel
+    if rnd.random() < 0.2:
+        # a crash / interrupt between the gradient and the Laplacian halves of an in-place refresh:
+        # an error must end the run; after a resumed interrupt no step may use a half-updated pair
+        kind = rnd.choice(["exc", "sigint", "sigint"])
+        scn["faults"] = scn.get("faults", []) + [{"kind": kind, "at": {"point": "line", "func": "set_link_exponents", "ordinal": rnd.randint(6, 30 * max(2, scn["meta"]["steps"])), "stage": "S"}}]
+        if kind == "sigint":
+            scn["options"]["pause_on_interrupt"] = True
+            scn["observer"] = {"output": None, "answers": rnd.choice([["y"], ["y"], ["n"]])}
+        scn["meta"]["refresh_fault"] = kind
     return scn
 
 
@@ -127,6 +136,8 @@ def run(scn):
     if scn.get("bare"):
         return run_bare(scn)
     ck = C10Refresh()
+    if scn["meta"].get("refresh_fault"):
+        ck.check_expected = scn["meta"]["refresh_fault"] != "sigint"  # after a resume the step/time mapping is undefined
     return base.physics_run(
         scn,
         [ck],
